@@ -126,7 +126,12 @@ func (a *gAlloc) Allocate(cap, max uint64) experimental.LinearMemory {
 
 func (m *gMem) slice() []byte {
 	// A zero-length memory still gets a pointer into the reservation (never nil: nil means failure).
-	return unsafe.Slice((*byte)(unsafe.Pointer(m.cur.mem)), int(m.cur.resv))[:m.size:m.size]
+	full := unsafe.Slice((*byte)(unsafe.Pointer(m.cur.mem)), int(m.cur.resv))
+	if m.a.fixed {
+		// like wazero's own make([]byte, min, max) for memories that must not move: the capacity is the reservation
+		return full[:m.size:m.cur.resv]
+	}
+	return full[:m.size:m.size]
 }
 
 func (m *gMem) Reallocate(size uint64) []byte {
